@@ -24,5 +24,17 @@ func Run(cfg hx.Config) (*hx.Meta, error) {
 			}
 		},
 	}
-	return vr.Run(cfg)
+	meta, err := vr.Run(cfg)
+	if err != nil {
+		return nil, err
+	}
+	// hardening round 4: the equality-preserving rewrite +0 <-> -0 applied INSIDE MAP KEYS: maps keyed by
+	// structs and arrays that contain floats (their keys are ordered with derived Compare before they are
+	// hashed), the same key set under several sign patterns of the zeros and several insertion orders
+	cat := ga.NewCatalogue()
+	x := &ga.ExtraRun{VR: vr, Name: "floatkeys", Types: cat.FloatKeyShapesHB(), Pool: ga.FloatKeyPoolHB, Probe: cfg.Tier == "thorough"}
+	if err := x.Run(cfg, meta); err != nil {
+		return nil, err
+	}
+	return meta, nil
 }
